@@ -179,7 +179,7 @@ def check_r09a(repo, rep, uni, eff, scope, prefix=''):
                         bad = [('derived', 'self.' + t[1])]
             if bad:
                 hits.append((w.node, bad, '%s on %s' % (
-                    w.kind, model.norm(w.target))))
+                    w.kind, model.norm(w.target)), w.target))
         for call, callee, amap in eff.calls(fi):
             for pname, actual in amap.items():
                 if pname in eff.mut.get(callee.key, ()):
@@ -191,7 +191,7 @@ def check_r09a(repo, rep, uni, eff, scope, prefix=''):
                         hits.append((call, bad,
                                      'passes it to %s, which writes through '
                                      'its parameter %s' % (callee.key,
-                                                           pname)))
+                                                           pname), actual))
         # receiver.method() where the method (by name, unique among repo
         # classes) stores into self
         for call in model.calls_in(fi.node, shallow=True):
@@ -205,18 +205,24 @@ def check_r09a(repo, rep, uni, eff, scope, prefix=''):
                 nsites += 1
                 if bad:
                     hits.append((call, bad, 'calls %s(), which stores into '
-                                 'its receiver' % f.attr))
+                                 'its receiver' % f.attr, f.value))
         if not hits:
             rep.ob('R09a', site_base, True, nontrivial=bool(
                 effects.writes_in(fi.node)))
             continue
         by_root = {}
-        for node, bad, what in hits:
+        for node, bad, what, expr in hits:
             for t in bad:
                 root = t[1] if len(t) > 1 else 'lambda-result'
-                by_root.setdefault(root, []).append((node, what))
+                by_root.setdefault(root, []).append((node, what, expr))
         for root, lst in sorted(by_root.items()):
             exc = R09A_EXCEPTIONS.get((fi.key, root))
+            # a reviewed exception covers writes on the parameter object
+            # itself, not on anything else reached from it
+            if exc and not all(isinstance(e, ast.Name) and e.id == root
+                               for n2, w2, e in lst):
+                exc = None
+            lst = [(n2, w2) for n2, w2, e in lst]
             node, what = lst[0]
             if exc:
                 rep.ob('R09a', '%s/%s' % (site_base, root), True,
